@@ -33,9 +33,11 @@ func (dpq *distributedPriorityQueue[T]) Add(data T, priority int, c ...JobConfig
 	}
 
 	if ok := dpq.Enqueue(jBytes, priority); !ok {
+		vhook("add.enq", j, false)
 		j.Close()
 		return false
 	}
+	vhook("add.enq", j, true)
 
 	return true
 }
